@@ -51,7 +51,10 @@ def std_models(include_quantised=True):
         st.just({"name": "gauss_gauss", "dims": 2}),
         st.just({"name": "gauss_hole", "dims": 2}),
         # likelihood that is exactly zero on part of the prior volume
-        st.just({"name": "gauss_cut", "dims": 2}),
+        st.sampled_from([{"name": "gauss_cut", "dims": 2},
+                         # ... on most of it (draws are rejected while the
+                         # initial live set is being filled)
+                         {"name": "gauss_cut", "dims": 2, "cut": -6.0}]),
         st.just({"name": "periodic", "dims": 2}),
         st.just({"name": "gw_named"}),
     ]
@@ -183,8 +186,8 @@ def standard_job(draw, nlive=(20, 200), resume_cycles=(0, 0),
     labels = ["model:" + model["name"], "ftype:" +
               kw["flow_config"]["ftype"]]
     # proposal class
-    pcs = proposal_classes or ["flowproposal"] * 7 + [
-        "clusteringflowproposal"]
+    pcs = proposal_classes or ["flowproposal"] * 6 + [
+        "augmentedflowproposal", "clusteringflowproposal"]
     if model["name"] == "gw_named":
         pc = draw(st.sampled_from(["gwflowproposal", "flowproposal"]))
     else:
@@ -192,6 +195,17 @@ def standard_job(draw, nlive=(20, 200), resume_cycles=(0, 0),
     if pc != "flowproposal" or draw(st.booleans()):
         kw["flow_proposal_class"] = pc
     labels.append("proposal:" + pc)
+    if pc == "augmentedflowproposal":
+        # the augmented proposal configures a custom mask, which only the
+        # RealNVP flow accepts
+        kw["flow_config"]["ftype"] = "realnvp"
+        kw["flow_config"].pop("linear_transform", None)
+        labels[1] = "ftype:realnvp"
+        if draw(st.booleans()):
+            kw["augment_dims"] = draw(st.sampled_from([1, 2]))
+        if draw(st.booleans()):
+            kw["generate_augment"] = draw(
+                st.sampled_from(["gaussian", "zeros"]))
     lat = draw(latent_options())
     if pc == "clusteringflowproposal" and lat["latent_prior"] in (
             "uniform_nsphere", "uniform_nball"):
@@ -401,8 +415,14 @@ def ins_job(draw, resume_cycles=(0, 0), nlive=(100, 500),
             kw[name] = draw(st.sampled_from(vals))
             labels.append(f"{name}:{kw[name]}")
     if dc and draw(st.integers(0, 3)) == 0:
-        kw["max_samples"] = draw(st.integers(2 * n + 1, 6 * n))
-        labels.append("max_samples")
+        # a loose cap, or one tighter than nlive + min_samples (the cap then
+        # pushes the threshold above the point where min_samples live
+        # samples remain)
+        kw["max_samples"] = draw(st.one_of(
+            st.integers(2 * n + 1, 6 * n),
+            st.integers(n + 1, n + max(2, kw["min_samples"]))))
+        labels.append("max_samples" if kw["max_samples"] > 2 * n
+                      else "max_samples:tight")
     kw["checkpointing"] = True
     kw["checkpoint_on_iteration"] = True
     kw["checkpoint_interval"] = draw(st.integers(1, 3))
